@@ -30,6 +30,9 @@ pub struct ConcCfg {
     pub sampled_faults: bool,
     /// stale temp files (crash debris older than the age limit) are planted
     pub debris: bool,
+    /// a quarter of the runs hammer ONE key with puts/sets while the
+    /// adversary deletes it repeatedly (the link-EEXIST / touch window)
+    pub focus: bool,
 }
 
 #[derive(Clone, Debug)]
@@ -100,10 +103,11 @@ pub fn run_conc(tape: &mut Tape, cfg: &ConcCfg, detail: bool) -> ConcRun {
         kn.regime = *tape.pick(&[k::ClockRegime::Micros, k::ClockRegime::Tiny, k::ClockRegime::Millis]);
     }
     let mut fs = new_fs(&kn);
+    let focus = cfg.focus && tape.draw(4) == 3;
     let front = *tape.pick(&cfg.fronts);
     let writer_sharded = front == 1 || (front == 2 && tape.draw(2) == 1);
     let nshards = 2 + tape.draw(3) as usize;
-    let capacity = *tape.pick(&cfg.capacities);
+    let capacity = if focus { 1_000_000 } else { *tape.pick(&cfg.capacities) };
     let wroot = "/sim/c0".to_string();
     let rroot = "/sim/c1".to_string();
     let has_reader = front == 2 && tape.draw(3) != 0;
@@ -120,7 +124,7 @@ pub fn run_conc(tape: &mut Tape, cfg: &ConcCfg, detail: bool) -> ConcRun {
         dirs.push(DirSpec { path: rroot.clone(), kind: if reader_sharded { DirKind::Sharded(nshards) } else { DirKind::Plain }, capacity: 1_000_000 });
     }
     // keys
-    let nkeys = 1 + tape.draw(cfg.max_keys as u64) as usize;
+    let nkeys = if focus { 1 } else { 1 + tape.draw(cfg.max_keys as u64) as usize };
     let mut keys = Vec::new();
     for i in 0..nkeys {
         let a = tape.draw(nshards.min(2) as u64) as usize;
@@ -196,12 +200,13 @@ pub fn run_conc(tape: &mut Tape, cfg: &ConcCfg, detail: bool) -> ConcRun {
     let mut programs: Vec<Vec<Step>> = Vec::new();
     let mut tag = 1u32;
     for p in 0..nparts {
-        let nops = 1 + tape.draw(cfg.max_ops as u64) as usize;
+        let nops = if focus { 2 + tape.draw(5) as usize } else { 1 + tape.draw(cfg.max_ops as u64) as usize };
         let mut prog = Vec::new();
         let is_stack = matches!(hspecs[part_handle[p]], HandleSpec::Stack { .. });
         for _ in 0..nops {
             let key = tape.draw(nkeys as u64) as usize;
-            let op = draw_op(tape, &cfg.ops, tag, is_stack);
+            let focus_ops = ["put", "put", "put", "put", "set", "get", "touch"];
+            let op = if focus { draw_op(tape, &focus_ops, tag, is_stack) } else { draw_op(tape, &cfg.ops, tag, is_stack) };
             tag += 1;
             prog.push(Step::Op { handle: part_handle[p], key, op });
         }
@@ -209,7 +214,7 @@ pub fn run_conc(tape: &mut Tape, cfg: &ConcCfg, detail: bool) -> ConcRun {
     }
     let total_parts = nparts + adversary as usize;
     if adversary {
-        let n = 1 + tape.draw(3) as usize;
+        let n = if focus { 3 + tape.draw(6) as usize } else { 1 + tape.draw(3) as usize };
         programs.push((0..n).map(|_| Step::Unlink).collect());
         part_proc.push(nparts);
     }
@@ -237,7 +242,7 @@ pub fn run_conc(tape: &mut Tape, cfg: &ConcCfg, detail: bool) -> ConcRun {
         st.sched.stay = stay;
         // a third of the runs preempt mostly at publication / removal /
         // re-stamping calls, where the races of a lock-free protocol live
-        st.sched.hot_switch = [0u64, 0, 750][st.tape.draw(3) as usize];
+        st.sched.hot_switch = if focus { 900 } else { [0u64, 0, 750][st.tape.draw(3) as usize] };
         st.sched.hold = hold;
         st.stale_mode = cfg.stale_mode && st.tape.draw(2) == 1;
         if cfg.freeze {
@@ -271,7 +276,7 @@ pub fn run_conc(tape: &mut Tape, cfg: &ConcCfg, detail: bool) -> ConcRun {
             }
         }));
     }
-    desc.push(format!("sampled_fault_rate_permille={}", fault_rate));
+    desc.push(format!("sampled_fault_rate_permille={} focus_one_key={}", fault_rate, focus));
     let (stale_on, hot_on) = {
         let st = w.sim.lock();
         (st.stale_mode, st.sched.hot_switch)
